@@ -98,6 +98,21 @@ def run_job(job: dict) -> dict:
         obs["task_before"] = task.model_dump(exclude={"data"})
         if job.get("pre_draws"):
             np.random.random(job["pre_draws"])
+        snaps = None
+        if job.get("snapshots"):
+            import copy
+            snaps = []
+
+            class Snap(cls):            # an independent deep snapshot after _init_population and after every cycle
+                def _init_population(self):
+                    super()._init_population()
+                    snaps.append([(copy.deepcopy(a.position), a.cost, a.fitness) for a in self._population])
+
+                def optimization_step(self):
+                    super().optimization_step()
+                    snaps.append([(copy.deepcopy(a.position), a.cost, a.fitness) for a in self._population])
+            Snap.__name__ = cls.__name__
+            cls = Snap
         o = cls(cfg)
         with contextlib.redirect_stdout(io.StringIO()):
             kw = {}
@@ -110,6 +125,12 @@ def run_job(job: dict) -> dict:
         obs["best"] = None if res.best_solution is None else (res.best_solution.position, res.best_solution.cost, res.best_solution.fitness)
         obs["config_after"] = cfg.model_dump()
         obs["task_after"] = task.model_dump(exclude={"data"})
+        if snaps is not None:
+            obs["snapshots"] = snaps
+        if job.get("trends"):
+            from pyvolutionary import utils as U
+            obs["best_trend"] = [float(x) for x in U.best_agent_trend(res)]
+            obs["best_positions"] = U.best_agent_position(res)
         if job.get("decode"):
             obs["decoded_best"] = repr(task.transform_solution(res.best_solution.position))
     except Exception as e:
